@@ -382,9 +382,20 @@ impl AppHandlerExecute for Ics20Transfer {
             .map_err(|err| eyre_to_anyhow(err).context("failed to read upgrade info"))?
             .is_some();
 
-        let ack = match receive_tokens(&mut state, &msg.packet).await {
-            Ok(()) => TokenTransferAcknowledgement::success(),
+        // Receive the tokens in a nested state delta: a failure is turned into an error
+        // acknowledgement below instead of failing the transaction, so nothing written before the
+        // failing step (deposit event, cached deposit, escrow or balance change) may survive it.
+        let mut delta = cnidarium::StateDelta::new(&mut state);
+        let ack = match receive_tokens(&mut delta, &msg.packet).await {
+            Ok(()) => {
+                let (_, events) = delta.apply();
+                for event in events {
+                    state.record(event);
+                }
+                TokenTransferAcknowledgement::success()
+            }
             Err(e) => {
+                drop(delta);
                 tracing::warn!(
                     error = AsRef::<dyn std::error::Error>::as_ref(&e),
                     "failed to execute ics20 transfer"
